@@ -31,9 +31,51 @@ from qv.harness import obligation, Skip
 
 PROP = "C13"
 META = {
-    "bounds": {},
-    "outside": [],
-    "assumptions": [],
+    "bounds": {
+        "quick": {
+            "arbitrary geometry": "path3 (phys dims 2,3,2), ring3, star4, ring4 (one site tuple), hyper3 (a bond label on 3 tensors; exact routes only); "
+                                  "bond 2; all entries complex symbols",
+            "operators": "full symbolic complex non-symmetric d^k x d^k matrices, k = 1..2 (3 in thorough)",
+            "site tuples": "single sites, adjacent and non-adjacent pairs in both orders",
+            "normalization": "False, True, 'return' / 'local' / 'separate' / 'prod' / 'global' where offered",
+            "cluster / loop expansions": "max_distance >= diameter, loopunion, fillin; gloops / sloops = the whole ring (explicit and auto-generated); "
+                                         "combine sum and prod; gauges none / all bonds (positive symbols)",
+            "1D": "MPS L=3, bond 2: environment routes complex; canonical routes real with the record (c,c) as hypothesis, centre moved by <= 1 site",
+            "2D": "PEPS 2x2 bond 2 complex (all modes: mps, full-bond, flat, ungrouped, x/y first); 3x2 with one entangled column (QR stubs)",
+            "3D": "PEPS3D 2x2x2, bond 2 on a 3-bond path (complex), two site tuples",
+            "operators networks": "MPO L=3, rectangular 2-site generic operator, PEPO 2x2",
+        },
+        "thorough": {
+            "adds": "ring4 and star4 with every listed site tuple incl. triples, partial gauges, MPS L=4, canonical centre moved by 2 sites "
+                    "(non-mandatory), every PEPS option x site tuple, 3x2 / 2x3 PEPS with two entangled columns / an entangled row, "
+                    "every PEPS3D option x site tuple, cyclic MPO, unit-norm gauges for the global loop normalization",
+        },
+    },
+    "outside": [
+        "floating point rounding; truncating bond caps / non-zero cutoffs (approximate by design)",
+        "clusters / loops that do not span the network, autoreduce=True on tree-like networks (documented as valid only at a BP fixed point)",
+        "simple-loop expansion on networks that are not a single ring (a simple loop cannot cover a chord)",
+        "rehearse=..., executor=..., progbar options; sample_configuration_cluster (random)",
+        "partial_trace(reduce=True) (documented experimental, 2 sites only)",
+        "PEPS.normalize in symbolic mode (takes the power -1/(2N) of <psi|psi>): checked in the numeric cross-run only",
+        "PEPS boundary compression with bond > 1 on the compressed bonds in symbolic mode (certificates too large): those instances run "
+        "in the numeric cross-run (all bonds 2, complex, real LAPACK); symbolic instances keep bond 2 only on the listed bonds",
+        "PEPS3D lattices with a size-1 dimension (PEPS3D.partial_trace raises IndexError), cyclic lattices",
+        "cluster / loop routes on states with hyper indices (get_path_between_tids documents that it ignores them); the exact routes "
+        "are checked on a hyper-index state",
+        "combine='prod' with complex symbols (abs / log10 of a complex polynomial): symbolic runs use strictly positive symbols there, "
+        "complex data in the numeric cross-run",
+        "MPS.local_expectation / partial_trace (the generic compressed route is disabled on MPS: raises AttributeError by design)",
+    ],
+    "assumptions": [
+        "<psi|psi> != 0 (normalized values divide by it)",
+        "LAPACK qr/svd meet their contracts (stubs; positive diagonal / positive singular values) wherever a route canonises or compresses",
+        "a (network, gauges) pair denotes the network with each listed gauge vector inserted on its bond "
+        "(what gauge_simple_insert does on a cluster that contains both ends of the bond)",
+        "descending pair keys of PEPS.compute_local_expectation are supplied through the documented plaquette_map argument "
+        "(the automatic map only lists ascending pairs and rejects the others with KeyError)",
+    ],
+    "timeout_s": {"quick": 300, "thorough": 900},
 }
 
 _Q = ("quick", "thorough")
@@ -62,17 +104,28 @@ def _iszero(x):
 
 
 def expect_ref(psi, G, pos, dims):
-    """<psi| G (on subsystems `pos`, in that order) |psi> = sum_ab conj(psi_a) M_ab psi_b"""
-    v = psi.reshape(-1)
-    M = ref.embed(G, list(dims), tuple(pos))
-    cv = conj(v)
+    """<psi| G (acting on subsystems `pos`, in that order) |psi>
+       = sum_{a, b} conj(psi[a]) G[row(a_pos), col(b_pos)] psi[b],  b equal to a off `pos`;
+    row / col are the row-major positions of the sub-configurations taken in the order of `pos`"""
+    dims = tuple(dims)
+    pos = tuple(pos)
+    psi = np.asarray(psi).reshape(dims)
+    cpsi = conj(psi)
+    dw = [dims[p] for p in pos]
     tot = 0
-    for a in range(M.shape[0]):
+    for a in np.ndindex(*dims):
+        ro = 0
+        for p in pos:
+            ro = ro * dims[p] + a[p]
         w = 0
-        for b in range(M.shape[1]):
-            if not _iszero(M[a, b]):
-                w = w + M[a, b] * v[b]
-        tot = tot + cv[a] * w
+        for bw in np.ndindex(*dw):
+            co = 0
+            b = list(a)
+            for p, x in zip(pos, bw):
+                co = co * dims[p] + x
+                b[p] = x
+            w = w + G[ro, co] * psi[tuple(b)]
+        tot = tot + cpsi[a] * w
     return tot
 
 
@@ -177,18 +230,19 @@ GRAPHS = {
     "ring3": (3, [(0, 1), (1, 2), (0, 2)]),
     "star4": (4, [(0, 1), (0, 2), (0, 3)]),
     "ring4": (4, [(0, 1), (1, 2), (2, 3), (0, 3)]),
+    "hyper3": (3, [(0, 1, 2), (1, 2)]),          # one bond label shared by three tensors + an ordinary bond
 }
 # physical dimensions: one geometry with unequal dimensions (pins the reshape of G / rho)
-PHYS = {"path3": (2, 3, 2), "ring3": (2, 2, 2), "star4": (2, 2, 2, 2), "ring4": (2, 2, 2, 2)}
+PHYS = {"path3": (2, 3, 2), "ring3": (2, 2, 2), "star4": (2, 2, 2, 2), "ring4": (2, 2, 2, 2), "hyper3": (2, 2, 2)}
 
 
 def build_vec(mk, geom, kind="cplx", D=2, kinds=None):
     n, edges = GRAPHS[geom]
     inds = {i: [] for i in range(n)}
-    for a, b in edges:
-        ix = f"b{a}{b}"
-        inds[a].append(ix)
-        inds[b].append(ix)
+    for e in edges:
+        ix = "b" + "".join(map(str, e))
+        for a in e:
+            inds[a].append(ix)
     ts = []
     for i in range(n):
         shape = (D,) * len(inds[i]) + (PHYS[geom][i],)
@@ -213,12 +267,14 @@ WHERES = {
     "ring3": [(0,), (0, 1), (1, 0), (2, 0)],
     "star4": [(0,), (1, 0), (1, 3), (3, 1)],
     "ring4": [(2,), (0, 1), (1, 0), (0, 2), (2, 0), (3, 1)],
+    "hyper3": [(0,), (1, 0), (0, 2)],
 }
 WHERES_MORE = {
     "path3": [(0,), (2,), (1, 2), (2, 1), (2, 0, 1)],
     "ring3": [(1,), (2,), (1, 2), (2, 1), (0, 2), (1, 2, 0)],
     "star4": [(2,), (0, 1), (2, 1), (3, 0, 1)],
     "ring4": [(0,), (3, 0), (1, 3), (2, 0, 3)],
+    "hyper3": [(2,), (0, 1), (2, 1), (2, 0, 1)],
 }
 
 
@@ -226,7 +282,7 @@ def _exact_params():
     out = []
     for g in GRAPHS:
         for w in WHERES[g]:
-            out.append({"geom": g, "where": w, "_tiers": _Q if g != "ring4" or w in [(2,), (1, 0), (0, 2)] else _T})
+            out.append({"geom": g, "where": w, "_tiers": _Q if g != "ring4" or w == (1, 0) else _T})
         for w in WHERES_MORE[g]:
             out.append({"geom": g, "where": w, "_tiers": _T})
     return out
@@ -295,7 +351,7 @@ def exact_routes(mk, geom, where):
              tn.compute_local_expectation_exact(terms), e_w + e2, nrm2)
 
 
-@obligation(PROP, params=[{"geom": "ring3", "where": (0, 1)}, {"geom": "path3", "where": (2,)}], exc_is_violation=True)
+@obligation(PROP, params=[{"geom": "ring3", "where": (0, 1)}], exc_is_violation=True)
 def exact_rdm_as_tensor_normalized(mk, geom, where):
     """partial_trace_exact(get='tensor') with the default normalized=True (documented return:
     a Tensor holding the normalized reduced density matrix)"""
@@ -344,6 +400,8 @@ def dense_gauged(tn, sites, gauges):
 def _cluster_params():
     out = []
     for g in GRAPHS:
+        if g == "hyper3":
+            continue          # path finding between sites documents that it ignores hyper indices
         ws = WHERES[g] + WHERES_MORE[g]
         for k, w in enumerate(ws):
             for gz in (None, "all", "partial"):
@@ -479,7 +537,8 @@ def loop_expansion_routes(mk, geom, where, gauged, combine):
 _UNIT = [(3 / 5, 4 / 5), (5 / 13, 12 / 13), (8 / 17, 15 / 17), (20 / 29, 21 / 29)]
 
 
-@obligation(PROP, params=[{"geom": "ring3", "where": (1, 0), "gauge": "unit"}, {"geom": "ring3", "where": (1, 0), "gauge": "free"},
+@obligation(PROP, params=[{"geom": "ring3", "where": (1, 0), "gauge": "unit"}], tiers=_T, wall_s=600, timeout_s=800, rounds=3)
+@obligation(PROP, params=[{"geom": "ring3", "where": (1, 0), "gauge": "free"},
                           {"geom": "path3", "where": (2, 0), "gauge": "free", "_tiers": _T}], wall_s=300)
 def gloop_global_normalization(mk, geom, where, gauge):
     """compute_local_expectation_gloop_expand(normalized='global') and norm_gloop_expand with the
@@ -490,10 +549,13 @@ def gloop_global_normalization(mk, geom, where, gauge):
     mk.encodes(ag.TensorNetworkGenVector.norm_gloop_expand, ag.TensorNetworkGen.normalize_simple,
                ag.TensorNetworkGenVector.compute_local_expectation_gloop_expand)
     kind = "pos" if mk.sym else "cplx"
-    tn, n, dims = build_vec(mk, geom, kind=kind)
+    # symbolic mode: bond dimension 1 (the normalisation bookkeeping under test does not depend on
+    # it, and the square roots / logarithms taken by normalize_simple stay tractable)
+    D = 1 if mk.sym else 2
+    tn, n, dims = build_vec(mk, geom, kind=kind, D=D)
     bonds = sorted(tn.inner_inds())
     if gauge == "unit":
-        gauges = {ix: mk.const(np.array(_UNIT[k])) for k, ix in enumerate(bonds)}
+        gauges = {ix: mk.const(np.array(_UNIT[k] if D == 2 else (1.0,))) for k, ix in enumerate(bonds)}
     else:
         gauges = make_gauges(mk, tn, "all")
     psi = dense_gauged(tn, range(n), gauges)
@@ -508,3 +570,538 @@ def gloop_global_normalization(mk, geom, where, gauge):
                                                     autoreduce=loopy)
     eq_ratio(mk, f"compute_local_expectation_gloop_expand(normalized='global', gauges {gauge}) == <psi|G|psi>/<psi|psi>",
              val, e_w, nrm2)
+
+
+# ---------------------------------------------------------------------- 1D routes
+
+def mps_sym(mk, L, kind="cplx", D=2, d=2):
+    arrays = []
+    for i in range(L):
+        shp = (D, d) if i in (0, L - 1) else (D, D, d)
+        arrays.append(mk.array(f"T{i}", shp, kind))
+    return qtn.MatrixProductState(arrays)
+
+
+MPS_WHERES = [(1,), (0, 1), (1, 0), (0, 2), (2, 0), (2, 1)]
+MPS_WHERES_MORE = [(0,), (2,), (1, 2), (1, 2, 0), (0, 1, 2)]
+
+
+@obligation(PROP, params=[{"L": 3, "where": w} for w in MPS_WHERES]
+            + [{"L": 3, "where": w, "_tiers": _T} for w in MPS_WHERES_MORE]
+            + [{"L": 4, "where": w, "_tiers": _T} for w in [(3, 0), (1, 3), (2, 1)]], wall_s=400, timeout_s=600)
+def mps_env_and_exact_routes(mk, L, where):
+    """MPS routes that need no LAPACK, on a complex symbolic MPS: compute_local_expectation_via_envs
+    (left / right environments), compute_local_expectation(method='envs'), the inherited exact /
+    cluster routes, norm"""
+    mk.encodes(c1.MatrixProductState.compute_local_expectation_via_envs, c1.MatrixProductState.compute_local_expectation,
+               c1.TensorNetwork1D.compute_left_environments, c1.TensorNetwork1D.compute_right_environments,
+               ag.TensorNetworkGenVector.local_expectation_exact, ag.TensorNetworkGenVector.partial_trace_exact,
+               ag.TensorNetworkGenVector.local_expectation_cluster, ag.tensor_network_ag_gate)
+    psi_tn = mps_sym(mk, L)
+    dims = (2,) * L
+    psi = dense_vec(psi_tn, range(L))
+    nrm2 = norm2_ref(psi)
+    G = op_for(mk, "O", dims, where)
+    e_w = expect_ref(psi, G, where, dims)
+    w2 = tuple(reversed(where)) if len(where) > 1 else ((where[0] + 1) % L,)
+    G2 = op_for(mk, "Q", dims, w2)
+    e2 = expect_ref(psi, G2, w2, dims)
+    terms = {where: G, w2: G2}
+    mk.eq(f"compute_local_expectation_via_envs({{{where}: G}}, normalized=False) == <psi|G|psi>",
+          psi_tn.compute_local_expectation_via_envs({where: G}, normalized=False), e_w)
+    eq_ratio(mk, f"compute_local_expectation_via_envs({{{where}: G}}) normalized",
+             psi_tn.compute_local_expectation_via_envs({where: G}), e_w, nrm2)
+    mk.eq("compute_local_expectation_via_envs(two terms, normalized=False) == sum",
+          psi_tn.compute_local_expectation_via_envs(terms, normalized=False), e_w + e2)
+    d = psi_tn.compute_local_expectation_via_envs(terms, return_all=True)
+    mk.same("return_all keys", list(d), [where, w2])
+    eq_ratio(mk, "compute_local_expectation_via_envs(return_all)[where] normalized", d[where], e_w, nrm2)
+    eq_ratio(mk, "compute_local_expectation_via_envs(return_all)[where2] normalized", d[w2], e2, nrm2)
+    mk.eq("compute_local_expectation(method='envs', normalized=False)",
+          psi_tn.compute_local_expectation(terms, normalized=False, method="envs"), e_w + e2)
+    eq_ratio(mk, "compute_local_expectation(method='envs') normalized",
+             psi_tn.compute_local_expectation(terms, method="envs"), e_w + e2, nrm2)
+    # inherited generic routes on the MPS class
+    mk.eq(f"MPS.local_expectation_exact(G, {where}, normalized=False)",
+          psi_tn.local_expectation_exact(G, where, normalized=False), e_w)
+    rho = psi_tn.partial_trace_exact(where, normalized=False)
+    mk.eq(f"MPS.partial_trace_exact({where}, normalized=False)", rho, rdm_ref(psi, where))
+    mk.eq(f"MPS.local_expectation_cluster(G, {where}, max_distance=L, normalized=False)",
+          psi_tn.local_expectation_cluster(G, where, max_distance=L, normalized=False), e_w)
+    mk.eq("MPS.norm(squared=True)", psi_tn.norm(squared=True), nrm2)
+
+
+@obligation(PROP, params=[{"insert": None}, {"insert": 0}, {"insert": 1}])
+def mps_normalize(mk, insert):
+    """MatrixProductState.normalize (in place; documented to return the old <psi|psi>): the state
+    afterwards is psi / sqrt(<psi|psi>), a co-vector passed as `bra` gets the same factor"""
+    mk.encodes(c1.MatrixProductState.normalize, c1.expec_TN_1D)
+    L = 3
+    psi_tn = mps_sym(mk, L)
+    psi = dense_vec(psi_tn, range(L))
+    nrm2 = norm2_ref(psi)
+    m2 = psi_tn.copy()
+    b2 = psi_tn.H
+    old = m2.normalize(bra=b2, insert=insert)
+    mk.eq("MPS.normalize() returns the old <psi|psi>", old, nrm2)
+    root = P.lift(old).sqrt() if mk.sym else np.sqrt(old)
+    mk.eq("MPS.normalize(): state * sqrt(old <psi|psi>) == psi", dense_vec(m2, range(L)) * root, psi)
+    mk.eq("MPS.normalize(bra=...): bra * sqrt(old <psi|psi>) == conj(psi)", dense_vec(b2, range(L)) * root, conj(psi))
+    mk.eq("MPS.normalize(): <psi'|psi'> * old == old", norm2_ref(dense_vec(m2, range(L))) * old, nrm2)
+
+
+@obligation(PROP, params=[{"method": m} for m in ("canonical", "envs")], exc_is_violation=True)
+def mps_int_site_term_keys(mk, method):
+    """the 1D compute_* routes document `terms : dict[int or tuple[int], array_like]`: a one-site
+    term keyed by the bare site gives the same value as the key (site,)"""
+    mk.encodes(c1.MatrixProductState.compute_local_expectation, c1.MatrixProductState.compute_local_expectation_canonical,
+               c1.MatrixProductState.compute_local_expectation_via_envs)
+    psi_tn = mps_sym(mk, 3, kind="real")
+    psi = dense_vec(psi_tn, range(3))
+    G = mk.array("O", (2, 2), "real")
+    val = psi_tn.compute_local_expectation({1: G}, normalized=False, method=method, info={"cur_orthog": None})
+    mk.eq(f"compute_local_expectation({{1: G}}, method={method!r}) == <psi|G_1|psi>", val, expect_ref(psi, G, (1,), (2, 2, 2)))
+
+
+def _canon_params():
+    out = []
+    for c in range(3):
+        for w in [(1,), (0, 1), (1, 0), (1, 2), (2, 1), (0, 2), (2, 0), (0,), (2,)]:
+            lo, hi = min(w), max(w)
+            moves = 0 if lo <= c <= hi else min(abs(c - lo), abs(c - hi))
+            for route in ("expec", "rdm", "expec_normalized", "compute"):
+                quick = (moves == 0 and w in [(1,), (1, 0), (2, 0), (2, 1)] and route == "compute") or \
+                        (moves == 0 and w in [(1,), (2, 0)] and route == "expec_normalized") or \
+                        (moves == 1 and (c, w) in [(2, (1, 0)), (0, (2, 1)), (0, (1,))] and route in ("expec", "rdm"))
+                out.append({"c": c, "where": w, "route": route, "_tiers": _Q if quick else _T, "_mandatory": moves <= 1})
+    return out
+
+
+@obligation(PROP, params=_canon_params(), rounds=2, timeout_s=400, max_rows=60000, wall_s=350, solver_timeout_ms=60000)
+def mps_canonical_routes(mk, c, where, route):
+    """canonical-form routes on an MPS that satisfies the record cur_orthog=(c, c) by hypothesis
+    (props.c08.canonical_mps): local_expectation_canonical, partial_trace_to_dense_canonical,
+    compute_local_expectation_canonical, compute_local_expectation(method='canonical'), with a
+    non-symmetric operator, sites in both orders, normalized or not (one route per obligation:
+    every call moves the centre with its own QR stub)"""
+    from props.c08 import canonical_mps
+    mk.encodes(c1.MatrixProductState.partial_trace_to_dense_canonical, c1.MatrixProductState.local_expectation_canonical,
+               c1.MatrixProductState.compute_local_expectation_canonical, c1.MatrixProductState.compute_local_expectation,
+               c1.TensorNetwork1DFlat.canonicalize)
+    L = 3
+    dims = (2,) * L
+    psi_tn = canonical_mps(mk, L, c)
+    psi = dense_vec(psi_tn, range(L))
+    nrm2 = norm2_ref(psi)
+    G = op_for(mk, "O", dims, where, kind="real")
+    e_w = expect_ref(psi, G, where, dims)
+    rec = lambda: {"cur_orthog": (c, c)}
+    if route == "expec":
+        arg = where[0] if len(where) == 1 and c != 1 else where      # a bare site is a documented `where`
+        mk.eq(f"local_expectation_canonical(G, {arg}, normalized=False) == <psi|G|psi>",
+              psi_tn.local_expectation_canonical(G, arg, normalized=False, info=rec()), e_w)
+    elif route == "rdm":
+        rho = psi_tn.partial_trace_to_dense_canonical(where, normalized=False, info=rec())
+        mk.eq(f"partial_trace_to_dense_canonical({where}, normalized=False) == dense reduced state", rho, rdm_ref(psi, where))
+        herm_goal(mk, f"partial_trace_to_dense_canonical({where}) Hermitian", rho)
+    elif route == "expec_normalized":
+        eq_ratio(mk, f"local_expectation_canonical(G, {where}) normalized",
+                 psi_tn.local_expectation_canonical(G, where, info=rec()), e_w, nrm2)
+    else:
+        w2 = tuple(reversed(where)) if len(where) > 1 else ((where[0] + 1) % L,)
+        G2 = op_for(mk, "Q", dims, w2, kind="real")
+        e2 = expect_ref(psi, G2, w2, dims)
+        terms = {where: G, w2: G2}
+        info = rec()
+        if c == 1:
+            val = psi_tn.compute_local_expectation_canonical(terms, normalized=False, info=info)
+        else:
+            val = psi_tn.compute_local_expectation(terms, normalized=False, method="canonical", info=info)
+        mk.eq("compute_local_expectation_canonical(two terms, normalized=False) == sum", val, e_w + e2)
+        mk.same("inplace=False leaves the caller's record alone", info, rec())
+        d = psi_tn.compute_local_expectation(terms, normalized=False, return_all=True, method="canonical", info=rec(), inplace=True)
+        mk.eq("compute_local_expectation(method='canonical', return_all, inplace)[where]", d[where], e_w)
+        mk.eq("compute_local_expectation(method='canonical', return_all, inplace)[where2]", d[w2], e2)
+
+
+# ---------------------------------------------------------------------- 2D routes
+
+def peps_sym(mk, Lx, Ly, kind="cplx", d=2, bond=lambda a, b: 2):
+    """PEPS from our own arrays ('urdlp' order, missing edge bonds omitted); bond(a, b) -> dimension"""
+    arrays = []
+    for i in range(Lx):
+        row = []
+        for j in range(Ly):
+            shape = []
+            if i < Lx - 1:
+                shape.append(bond((i, j), (i + 1, j)))
+            if j < Ly - 1:
+                shape.append(bond((i, j), (i, j + 1)))
+            if i > 0:
+                shape.append(bond((i - 1, j), (i, j)))
+            if j > 0:
+                shape.append(bond((i, j - 1), (i, j)))
+            shape.append(d)
+            row.append(mk.array(f"A{i}{j}", tuple(shape), kind))
+        arrays.append(row)
+    return qtn.PEPS(arrays, shape="urdlp")
+
+
+def explicit_plaquette_map(keys, autogroup, Lx=2, Ly=2):
+    """the documented `plaquette_map` argument, written out for term keys in any order: each key
+    is sent to the smallest generated plaquette that contains its sites"""
+    sizes = c2.calc_plaquette_sizes(keys, autogroup)
+    plaqs = [((i0, j0), (bx, by)) for bx, by in sizes for i0 in range(Lx - bx + 1) for j0 in range(Ly - by + 1)]
+    out = {}
+    for key in keys:
+        coos = [key] if c2.is_lone_coo(key) else list(key)
+        ok = [q for q in plaqs if all(q[0][0] <= x < q[0][0] + q[1][0] and q[0][1] <= y < q[0][1] + q[1][1] for x, y in coos)]
+        out[key] = min(ok, key=lambda q: (q[1][0] * q[1][1], q))
+    return out
+
+
+PEPS_WHERES = [((0, 1),), ((0, 0), (0, 1)), ((0, 1), (0, 0)), ((0, 0), (1, 0)), ((1, 1), (0, 1)), ((0, 0), (1, 1)), ((1, 0), (0, 1))]
+PEPS_OPTS = {
+    "default": dict(max_bond=None, cutoff=0.0),
+    "nocanon": dict(max_bond=None, cutoff=0.0, canonize=False),
+    "fullbond": dict(max_bond=64, cutoff=0.0, mode="full-bond"),
+    "flat": dict(max_bond=64, cutoff=0.0, layer_tags=None),
+    "ungrouped": dict(max_bond=64, cutoff=0.0, autogroup=False),
+    "yfirst": dict(max_bond=64, cutoff=0.0, first_contract="y"),
+    "xfirst_dense": dict(max_bond=64, cutoff=0.0, first_contract="x", second_dense=True),
+}
+
+
+def _peps_params():
+    out = []
+    for k, w in enumerate(PEPS_WHERES):
+        for o in PEPS_OPTS:
+            quick = (o == "default" and k in (0, 2, 5, 6)) or (k == 3 and o == "fullbond") or (k == 4 and o == "flat") or (k == 1 and o == "yfirst")
+            out.append({"where": w, "opts": o, "_tiers": _Q if quick else _T})
+    return out
+
+
+@obligation(PROP, params=_peps_params(), wall_s=500, timeout_s=700)
+def peps_2x2_routes(mk, where, opts):
+    """2x2 PEPS (bond 2, complex): PEPS.compute_local_expectation via plaquette environments with
+    an untruncating bond cap in every mode, against the dense state; the exact routes with
+    coordinate sites; compute_norm / norm; normalize (numeric mode only: a fractional power of
+    <psi|psi>).  Pairs are keyed ((ia, ja), (ib, jb)); a pair in descending order is looked up
+    through an explicit plaquette_map (calc_plaquette_map only lists ascending pairs)."""
+    mk.encodes(c2.TensorNetwork2DVector.compute_local_expectation, c2.TensorNetwork2D.compute_plaquette_environments,
+               c2.TensorNetwork2D._compute_plaquette_environments_x_first, c2.TensorNetwork2D._compute_plaquette_environments_y_first,
+               c2.TensorNetwork2D.compute_environments, c2.calc_plaquette_sizes, c2.calc_plaquette_map, c2.plaquette_to_sites,
+               c2.TensorNetwork2DVector.compute_norm, c2.TensorNetwork2DVector.normalize, c2.TensorNetwork2DVector.gate,
+               ag.TensorNetworkGenVector.local_expectation_exact, ag.TensorNetworkGenVector.partial_trace_exact)
+    p = peps_sym(mk, 2, 2)
+    sites = list(p.gen_site_coos())
+    mk.same("site order", sites, [(0, 0), (0, 1), (1, 0), (1, 1)])
+    dims = (2,) * 4
+    psi = dense_vec_2d(p, sites)
+    nrm2 = norm2_ref(psi)
+    pos = tuple(sites.index(s) for s in where)
+    G = op_for(mk, "O", dims, pos)
+    e_w = expect_ref(psi, G, pos, dims)
+    key = where[0] if len(where) == 1 else where
+    kw = dict(PEPS_OPTS[opts])
+    if len(where) == 2 and where[0] > where[1]:
+        kw["plaquette_map"] = explicit_plaquette_map([key], kw.get("autogroup", True))
+    mk.eq(f"compute_local_expectation({{{key}: G}}, normalized=False, {opts}) == <psi|G|psi>",
+          p.compute_local_expectation({key: G}, normalized=False, **kw), e_w)
+    eq_ratio(mk, f"compute_local_expectation({{{key}: G}}, normalized=True, {opts}) == <psi|G|psi>/<psi|psi>",
+             p.compute_local_expectation({key: G}, normalized=True, **kw), e_w, nrm2)
+    d = p.compute_local_expectation({key: G}, normalized=True, return_all=True, **kw)
+    mk.eq("return_all -> (expectation, local norm): expectation", d[key][0], e_w)
+    mk.eq("return_all -> (expectation, local norm): norm == <psi|psi>", d[key][1], nrm2)
+    # a second term on another plaquette shape
+    w2 = ((1, 0), (1, 1)) if where != ((1, 0), (1, 1)) else ((0, 0), (1, 0))
+    pos2 = tuple(sites.index(s) for s in w2)
+    G2 = op_for(mk, "Q", dims, pos2)
+    e2 = expect_ref(psi, G2, pos2, dims)
+    kw2 = dict(kw)
+    if "plaquette_map" in kw2:
+        kw2["plaquette_map"] = explicit_plaquette_map([key, w2], kw.get("autogroup", True))
+    mk.eq("compute_local_expectation(two terms, normalized=False) == sum",
+          p.compute_local_expectation({key: G, w2: G2}, normalized=False, **kw2), e_w + e2)
+    eq_ratio(mk, "compute_local_expectation(two terms, normalized=True) == sum / <psi|psi>",
+             p.compute_local_expectation({key: G, w2: G2}, normalized=True, **kw2), e_w + e2, nrm2)
+    if opts == "default":
+        # exact routes with coordinates as sites
+        mk.eq(f"PEPS.local_expectation_exact(G, {where}, normalized=False)", p.local_expectation_exact(G, where, normalized=False), e_w)
+        rho = p.partial_trace_exact(where, normalized=False)
+        mk.eq(f"PEPS.partial_trace_exact({where}, normalized=False)", rho, rdm_ref(psi, pos))
+        eq_ratio(mk, "PEPS.compute_local_expectation_exact(two terms) normalized",
+                 p.compute_local_expectation_exact({where: G, w2: G2}), e_w + e2, nrm2)
+        mk.eq(f"PEPS.local_expectation_cluster(G, {where}, max_distance=2, normalized=False)",
+              p.local_expectation_cluster(G, where, max_distance=2, normalized=False), e_w)
+    nkw = {k: v for k, v in PEPS_OPTS[opts].items() if k in ("max_bond", "cutoff", "canonize", "mode", "layer_tags")}
+    mk.eq(f"compute_norm({opts}) == <psi|psi>", p.compute_norm(**nkw), nrm2)
+    if not mk.sym:
+        pn = p.normalize(**nkw)
+        mk.eq(f"normalize({opts}): dense state == psi / sqrt(<psi|psi>)", dense_vec_2d(pn, sites), psi / np.sqrt(nrm2))
+        mk.eq("normalize() leaves the original alone", dense_vec_2d(p, sites), psi)
+
+
+def dense_vec_2d(p, sites):
+    return ref.tn_dense(p, tuple(p.site_ind(*s) for s in sites))
+
+
+BOND_PATTERNS = {
+    "col0": lambda a, b: 2 if a[1] == 0 and b[1] == 0 else 1,      # one entangled column, the rest product
+    "vert": lambda a, b: 2 if a[1] == b[1] else 1,                  # two entangled columns
+    "row0": lambda a, b: 2 if a[0] == 0 and b[0] == 0 else 1,
+}
+
+
+def _peps32_params():
+    out = []
+    for shape, pat in (((3, 2), "col0"), ((3, 2), "vert"), ((2, 3), "row0")):
+        for w in [((0, 0), (0, 1)), ((1, 0), (2, 0)) if shape == (3, 2) else ((0, 1), (0, 2)), ((shape[0] - 1, shape[1] - 1),),
+                  ((0, 0), (1, 1)), ((2, 0), (0, 0)) if shape == (3, 2) else ((0, 2), (0, 0))]:
+            for o in ("default", "flat", "fullbond"):
+                quick = pat == "col0" and w in [((0, 0), (0, 1)), ((2, 1),)] and o in ("default", "flat")
+                mand = not (pat == "vert" and o == "default")
+                out.append({"shape": shape, "pattern": pat, "where": w, "opts": o, "_tiers": _Q if quick else _T, "_mandatory": mand})
+    return out
+
+
+@obligation(PROP, params=_peps32_params(), rounds=2, wall_s=500, timeout_s=700, max_rows=60000, solver_timeout_ms=240000)
+def peps_boundary_routes(mk, shape, pattern, where, opts):
+    """3x2 / 2x3 PEPS: the plaquette environments now need a boundary contraction step with
+    canonisation + compression (QR / SVD stubs, untruncating cap, cutoff 0).  Symbolic mode: real
+    entries, bond dimension 2 on the bonds named by `pattern` and 1 elsewhere (certificates
+    stay tractable); numeric mode: every bond 2, complex entries, real LAPACK."""
+    mk.encodes(c2.TensorNetwork2DVector.compute_local_expectation, c2.TensorNetwork2D.compute_plaquette_environments,
+               c2.TensorNetwork2D.compute_environments, c2.TensorNetwork2D.contract_boundary_from,
+               c2.TensorNetwork2D._contract_boundary_core, c2.TensorNetwork2D._contract_boundary_full_bond,
+               c2.TensorNetwork2D.canonize_plane, c2.TensorNetwork2D.compress_plane, c2.TensorNetwork2DVector.compute_norm)
+    Lx, Ly = shape
+    kind = "real" if mk.sym else "cplx"
+    p = peps_sym(mk, Lx, Ly, kind=kind, bond=BOND_PATTERNS[pattern] if mk.sym else (lambda a, b: 2))
+    sites = list(p.gen_site_coos())
+    dims = (2,) * len(sites)
+    psi = dense_vec_2d(p, sites)
+    nrm2 = norm2_ref(psi)
+    pos = tuple(sites.index(s) for s in where)
+    G = op_for(mk, "O", dims, pos, kind=kind)
+    e_w = expect_ref(psi, G, pos, dims)
+    key = where[0] if len(where) == 1 else where
+    kw = dict(PEPS_OPTS[opts])
+    if len(where) == 2 and where[0] > where[1]:
+        kw["plaquette_map"] = explicit_plaquette_map([key], True, Lx, Ly)
+    d = p.compute_local_expectation({key: G}, normalized=True, return_all=True, **kw)
+    mk.eq(f"compute_local_expectation({{{key}: G}}, {opts}) expectation == <psi|G|psi>", d[key][0], e_w)
+    mk.eq(f"compute_local_expectation({{{key}: G}}, {opts}) local norm == <psi|psi>", d[key][1], nrm2)
+    if not mk.sym:
+        mk.eq(f"compute_local_expectation({{{key}: G}}, normalized=True, {opts})",
+              p.compute_local_expectation({key: G}, normalized=True, **kw), e_w / nrm2)
+        nkw = {k: v for k, v in PEPS_OPTS[opts].items() if k in ("max_bond", "cutoff", "canonize", "mode", "layer_tags")}
+        mk.eq(f"compute_norm({opts}) == <psi|psi>", p.compute_norm(**nkw), nrm2)
+
+
+# ---------------------------------------------------------------------- operator networks
+
+def _swap_axes_ref(A, dims_up, dims_lo, sys_pos):
+    """explicit partial transpose: swap the upper and lower index of every subsystem in sys_pos"""
+    n = len(dims_up)
+    T = np.asarray(A).reshape(tuple(dims_up) + tuple(dims_lo))
+    out_up = [dims_lo[i] if i in sys_pos else dims_up[i] for i in range(n)]
+    out_lo = [dims_up[i] if i in sys_pos else dims_lo[i] for i in range(n)]
+    out = np.empty(tuple(out_up) + tuple(out_lo), dtype=T.dtype)
+    for idx in np.ndindex(*out.shape):
+        up, lo = list(idx[:n]), list(idx[n:])
+        src_up = [lo[i] if i in sys_pos else up[i] for i in range(n)]
+        src_lo = [up[i] if i in sys_pos else lo[i] for i in range(n)]
+        out[idx] = T[tuple(src_up) + tuple(src_lo)]
+    return out.reshape(int(np.prod(out_up)), int(np.prod(out_lo)))
+
+
+@obligation(PROP, params=[{"kind": "mpo3"}, {"kind": "gen2"}, {"kind": "pepo2x2"}, {"kind": "mpo3cyc", "_tiers": _T}])
+def operator_trace_and_partial_transpose(mk, kind):
+    """operator-like networks: to_dense (upper indices are rows), trace, partial_transpose ==
+    explicit index arithmetic on the dense operator"""
+    mk.encodes(ag.TensorNetworkGenOperator.trace, ag.TensorNetworkGenOperator.partial_transpose,
+               ag.TensorNetworkGenOperator.to_dense, tc.TensorNetwork.trace)
+    if kind in ("mpo3", "mpo3cyc"):
+        L, D, d = 3, 2, 2
+        arrays = []
+        for i in range(L):
+            if kind == "mpo3cyc":
+                shp = (D, D, d, d)
+            else:
+                shp = (D, d, d) if i in (0, L - 1) else (D, D, d, d)
+            arrays.append(mk.array(f"W{i}", shp, "cplx"))
+        op = qtn.MatrixProductOperator(arrays)
+        sites = list(range(L))
+        up = [op.upper_ind(i) for i in sites]
+        lo = [op.lower_ind(i) for i in sites]
+        sys_list = [0, 1, (0, 2), (2, 1), [0, 1, 2]]
+    elif kind == "gen2":
+        # unequal upper / lower dimensions per site (a rectangular operator), arbitrary labels
+        ts = [qtn.Tensor(mk.array("W0", (2, 2, 3), "cplx"), ("x", "u0", "l0"), tags="I0"),
+              qtn.Tensor(mk.array("W1", (2, 3, 2), "cplx"), ("x", "u1", "l1"), tags="I1")]
+        op = qtn.TensorNetworkGenOperator.from_TN(qtn.TensorNetwork(ts), sites=(0, 1), site_tag_id="I{}",
+                                                  upper_ind_id="u{}", lower_ind_id="l{}")
+        sites = [0, 1]
+        up, lo = ["u0", "u1"], ["l0", "l1"]
+        sys_list = [0, (1,), (1, 0)]
+    else:
+        arrays = [[mk.array(f"W{i}{j}", (2, 2, 2, 2), "cplx" if (i, j) == (0, 1) else "real") for j in range(2)] for i in range(2)]
+        op = qtn.PEPO(arrays)          # 2x2: every site has two bonds; order 'urdlbk' minus the missing edges
+        sites = list(op.gen_site_coos())
+        up = [op.upper_ind(*s) for s in sites]
+        lo = [op.lower_ind(*s) for s in sites]
+        sys_list = [(0, 1), [(0, 0), (1, 1)], [(1, 0)], [(1, 1), (0, 0), (0, 1)]]
+    dup = [op.ind_size(i) for i in up]
+    dlo = [op.ind_size(i) for i in lo]
+    A = ref.tn_dense(op, tuple(up) + tuple(lo)).reshape(int(np.prod(dup)), int(np.prod(dlo)))
+    mk.eq("to_dense() == dense operator (upper = rows, lower = columns)", op.to_dense(), A)
+    if A.shape[0] == A.shape[1] and dup == dlo:
+        mk.eq("trace() == sum of the diagonal", op.trace(), ref.trace(A))
+    else:
+        # rectangular per-site factors: only matching-size pairs can be traced; trace over site 0's
+        # partner of equal size is not defined -> the dense check above is the obligation
+        mk.note("rectangular operator: trace not defined")
+    for sysa in sys_list:
+        pt = op.partial_transpose(sysa)
+        s = [sysa] if (not isinstance(sysa, (list, tuple)) or (kind == "pepo2x2" and isinstance(sysa, tuple))) else list(sysa)
+        posn = [sites.index(x) for x in s]
+        want = _swap_axes_ref(A, dup, dlo, posn)
+        mk.same(f"partial_transpose({sysa}) keeps the class", type(pt), type(op))
+        mk.eq(f"partial_transpose({sysa}).to_dense() == explicit index transposition", pt.to_dense(), want)
+        if want.shape[0] == want.shape[1] and dup == dlo:
+            mk.eq(f"partial_transpose({sysa}).trace() == trace()", pt.trace(), ref.trace(A))
+    mk.eq("partial_transpose leaves the original alone", op.to_dense(), A)
+    mk.eq("partial_transpose of all sites == transpose", op.partial_transpose(list(sites)).to_dense(), A.T)
+
+
+# ---------------------------------------------------------------------- compressed-contraction routes
+
+def _compressed_params():
+    out = []
+    for g in ("path3", "ring3", "ring4"):
+        ws = WHERES[g] + (WHERES_MORE[g] if g != "ring4" else [])
+        for k, w in enumerate(ws):
+            quick = (g in ("path3", "ring3") and k < 4) or (g == "ring4" and w == (2, 0))
+            out.append({"geom": g, "where": w, "_tiers": _Q if quick else _T})
+    return out
+
+
+@obligation(PROP, params=_compressed_params(), wall_s=400, timeout_s=600)
+def compressed_contraction_routes(mk, geom, where):
+    """TensorNetworkGenVector.partial_trace / local_expectation / compute_local_expectation
+    (compressed contraction of the flattened overlap network) with a bond cap above every
+    intermediate bond and cutoff 0: nothing is truncated, so the dense answer is required"""
+    mk.encodes(ag.TensorNetworkGenVector.partial_trace, ag.TensorNetworkGenVector.local_expectation,
+               ag.TensorNetworkGenVector.compute_local_expectation, ag.TensorNetworkGenVector.make_reduced_density_matrix,
+               tc.TensorNetwork.contract_compressed, tc.TensorNetwork.contract_around)
+    tn, n, dims = build_vec(mk, geom)
+    psi = dense_vec(tn, range(n))
+    nrm2 = norm2_ref(psi)
+    G = op_for(mk, "O", dims, where)
+    e_w = expect_ref(psi, G, where, dims)
+    rho_w = rdm_ref(psi, where)
+    cap = dict(max_bond=256, optimize="greedy", cutoff=0.0)
+    for fl in (True, False, "all"):
+        mk.eq(f"local_expectation(G, {where}, flatten={fl}, normalized=False) == <psi|G|psi>",
+              tn.local_expectation(G, where, flatten=fl, normalized=False, **cap), e_w)
+    eq_ratio(mk, f"local_expectation(G, {where}) normalized == <psi|G|psi>/<psi|psi>",
+             tn.local_expectation(G, where, **cap), e_w, nrm2)
+    mk.eq(f"local_expectation(G, {where}, symmetrized=True, normalized=False)",
+          tn.local_expectation(G, where, symmetrized=True, normalized=False, **cap), e_w)
+    rho = tn.partial_trace(where, normalized=False, **cap)
+    mk.eq(f"partial_trace({where}, normalized=False) == dense reduced state", rho, rho_w)
+    herm_goal(mk, f"partial_trace({where}) Hermitian", rho)
+    eq_ratio(mk, f"partial_trace({where}) normalized", tn.partial_trace(where, **cap), rho_w, nrm2)
+    rho = tn.partial_trace(where, normalized=False, method="contract_around", max_bond=256, optimize="greedy", cutoff=0.0)
+    mk.eq(f"partial_trace({where}, method='contract_around', normalized=False)", rho, rho_w)
+    w2 = tuple(reversed(where)) if len(where) > 1 else ((where[0] + 1) % n,)
+    G2 = op_for(mk, "Q", dims, w2)
+    e2 = expect_ref(psi, G2, w2, dims)
+    mk.eq("compute_local_expectation(two terms, normalized=False) == sum",
+          tn.compute_local_expectation({where: G, w2: G2}, normalized=False, **cap), e_w + e2)
+    d = tn.compute_local_expectation({where: G, w2: G2}, return_all=True, **cap)
+    eq_ratio(mk, "compute_local_expectation(return_all)[where] normalized", d[where], e_w, nrm2)
+    eq_ratio(mk, "compute_local_expectation(return_all)[where2] normalized", d[w2], e2, nrm2)
+
+
+# ---------------------------------------------------------------------- 3D routes
+
+def peps3d_sym(mk, Lx, Ly, Lz, kind, bond, d=2):
+    arrays = []
+    for i in range(Lx):
+        plane = []
+        for j in range(Ly):
+            line = []
+            for k in range(Lz):
+                shape = []
+                if i < Lx - 1:
+                    shape.append(bond((i, j, k), (i + 1, j, k)))
+                if j < Ly - 1:
+                    shape.append(bond((i, j, k), (i, j + 1, k)))
+                if k < Lz - 1:
+                    shape.append(bond((i, j, k), (i, j, k + 1)))
+                if i > 0:
+                    shape.append(bond((i - 1, j, k), (i, j, k)))
+                if j > 0:
+                    shape.append(bond((i, j - 1, k), (i, j, k)))
+                if k > 0:
+                    shape.append(bond((i, j, k - 1), (i, j, k)))
+                shape.append(d)
+                line.append(mk.array(f"A{i}{j}{k}", tuple(shape), kind))
+            plane.append(line)
+        arrays.append(plane)
+    return qtn.PEPS3D(arrays, shape="urfdlbp")
+
+
+_PATH3D = {frozenset(((0, 0, 0), (1, 0, 0))), frozenset(((1, 0, 0), (1, 1, 0))), frozenset(((1, 1, 0), (1, 1, 1)))}
+P3D_OPTS = {"default": dict(), "flat": dict(flatten=True), "nocanon": dict(canonize=False), "nosym": dict(symmetrized=False),
+            "cell_compressed": dict(contract_cell_method="compressed")}
+
+
+def _p3d_params():
+    out = []
+    ws = [((0, 0, 0), (1, 0, 0)), ((1, 0, 0), (0, 0, 0)), ((1, 1, 1),), ((1, 1, 0), (1, 0, 0)), ((0, 0, 0), (1, 1, 1)), ((1, 1, 1), (1, 0, 0))]
+    for k, w in enumerate(ws):
+        for o in P3D_OPTS:
+            quick = (k == 1 and o == "default") or (k == 3 and o == "flat")
+            out.append({"where": w, "opts": o, "_tiers": _Q if quick else _T})
+    return out
+
+
+@obligation(PROP, params=_p3d_params(), wall_s=500, timeout_s=700)
+def peps3d_routes(mk, where, opts):
+    """2x2x2 PEPS3D (the smallest lattice PEPS3D.partial_trace accepts): partial_trace /
+    compute_local_expectation via boundary contraction with an untruncating cap, the cluster and
+    exact routes, against the dense state.  Symbolic mode: complex entries, bond dimension 2 on
+    a path of three bonds through the lattice and 1 elsewhere (256 amplitudes stay tractable);
+    numeric mode: every bond 2."""
+    mk.encodes(c3.TensorNetwork3DVector.partial_trace, c3.TensorNetwork3DVector.compute_local_expectation,
+               c3.TensorNetwork3DVector.partial_trace_cluster, ag.TensorNetworkGenVector.local_expectation_exact)
+    bond = (lambda a, b: 2 if frozenset((a, b)) in _PATH3D else 1) if mk.sym else (lambda a, b: 2)
+    p = peps3d_sym(mk, 2, 2, 2, "cplx", bond)
+    sites = list(p.gen_site_coos())
+    dims = (2,) * 8
+    psi = ref.tn_dense(p, tuple(p.site_ind(*s) for s in sites))
+    nrm2 = norm2_ref(psi)
+    pos = tuple(sites.index(s) for s in where)
+    G = op_for(mk, "O", dims, pos)
+    e_w = expect_ref(psi, G, pos, dims)
+    rho_w = rdm_ref(psi, pos)
+    kw = dict(max_bond=64, cutoff=0.0, **P3D_OPTS[opts])
+    rho = p.partial_trace(where, normalized=False, **kw)
+    mk.eq(f"PEPS3D.partial_trace({where}, normalized=False, {opts}) == dense reduced state", rho, rho_w)
+    herm_goal(mk, f"PEPS3D.partial_trace({where}) Hermitian", rho)
+    mk.eq(f"PEPS3D.compute_local_expectation({{{where}: G}}, normalized=False, {opts}) == <psi|G|psi>",
+          p.compute_local_expectation({where: G}, normalized=False, **kw), e_w)
+    eq_ratio(mk, f"PEPS3D.compute_local_expectation({{{where}: G}}, {opts}) normalized",
+             p.compute_local_expectation({where: G}, **kw), e_w, nrm2)
+    if opts == "default":
+        d = p.compute_local_expectation({where: G, ((0, 1, 1),): mk.const(np.array([[0.0, 1.0], [0.0, 0.0]]))}, normalized=False,
+                                        return_all=True, max_bond=64, cutoff=0.0)
+        mk.eq("return_all[where]", d[where], e_w)
+        Sp = mk.const(np.array([[0.0, 1.0], [0.0, 0.0]]))
+        mk.eq("return_all[second term] (raising operator on (0,1,1))", d[((0, 1, 1),)], expect_ref(psi, Sp, (sites.index((0, 1, 1)),), dims))
+        rho = p.partial_trace_cluster(where, max_bond=64, cutoff=0.0, max_distance=3, normalized=False)
+        mk.eq(f"PEPS3D.partial_trace_cluster({where}, max_distance=3, normalized=False)", rho, rho_w)
+        mk.eq(f"PEPS3D.local_expectation_exact(G, {where}, normalized=False)", p.local_expectation_exact(G, where, normalized=False), e_w)
